@@ -12,6 +12,7 @@ pub mod c09;
 pub mod c10;
 pub mod c11;
 pub mod c05;
+pub mod c06;
 pub mod c12;
 pub mod c13;
 pub mod c14;
@@ -38,6 +39,7 @@ pub fn registry() -> Vec<PropDef> {
         PropDef { id: c16::ID, run: c16::run, replay: c16::replay },
         PropDef { id: c18::ID, run: c18::run, replay: c18::replay },
         PropDef { id: c05::ID, run: c05::run, replay: c05::replay },
+        PropDef { id: c06::ID, run: c06::run, replay: c06::replay },
         PropDef { id: c07::ID, run: c07::run, replay: c07::replay },
         PropDef { id: c08::ID, run: c08::run, replay: c08::replay },
         PropDef { id: c09::ID, run: c09::run, replay: c09::replay },
